@@ -23,16 +23,16 @@ import (
 // ------------------------------------------------------------------------------------ inputs with a known fate
 
 type pvariant struct {
-	name, text           string
+	name, text          string
 	parse, gen, compile string // ok | err | panic : how the three profile stages end
 }
 
 type dvariant struct {
-	name, text      string
-	decode, norm    string
-	evalErrWith     string // name of the profile variant whose evaluation fails on this document
-	nodes           bool
-	buildErrWith    string // comma-separated profile variants whose report cannot be encoded for this document
+	name, text   string
+	decode, norm string
+	evalErrWith  string // name of the profile variant whose evaluation fails on this document
+	nodes        bool
+	buildErrWith string // comma-separated profile variants whose report cannot be encoded for this document
 }
 
 const evalErrProfile = `#%Validation Profile 1.0
@@ -360,8 +360,16 @@ func C11(e *core.Env) {
 		"the trace must equal the model's trace for the stage outcomes the inputs were built to produce and satisfy the executable protocol specification; milestones consumer on the same runs; non-trivial = some stage fails; distinct by (entry, profile, data)"
 	compiled := compilePool(res)
 	cases := allPipeCases(func(n string) bool { return compiled[n] != nil })
+	blocked := 0
 	for i, c := range cases {
+		if blocked >= 2 {
+			res.Note("two calls blocked: the remaining cases are skipped (each would wait for the wall-clock bound)")
+			break
+		}
 		tr, kind, _ := runPipeCase(e, c, compiled)
+		if kind == "blocked" {
+			blocked++
+		}
 		fail := false
 		for _, f := range c.faults() {
 			if f != "ok" {
@@ -444,16 +452,22 @@ func C11(e *core.Env) {
 
 func C04(e *core.Env) {
 	res := e.Res
-	res.Rule = "cases = (unreadable data text, entry point): empty text, every 5th (quick) / every (thorough) proper prefix of two valid documents cut inside the first JSON value, UTF-16/UTF-32/BOM/Latin-1 encodings, YAML/RAML/XML/Rego texts, JSON that JSON-LD rejects (non-string @id, bad @context, bad @type, @value+@id, bad @base, invalid @language) x Validate / ValidateWithConfiguration / ValidateCompiled / ValidateCompiledWithConfiguration and the built acv binary (validate, normalize); expected: an error (non-zero exit, nothing on stdout), never a report; " +
+	res.Rule = "cases = (unreadable data text, entry point): empty text, every 5th (quick) / every (thorough) proper prefix of two valid documents cut inside the first JSON value, UTF-16/UTF-32/BOM/Latin-1 encodings, YAML/RAML/XML/Rego texts, JSON that JSON-LD rejects (non-string @id, bad @context, bad @type, @value+@id, bad @base, invalid @language, contexts and documents named by a URL that cannot be loaded) x Validate / ValidateWithConfiguration / ValidateCompiled / ValidateCompiledWithConfiguration and the built acv binary (validate, normalize); expected: an error (non-zero exit, nothing on stdout), never a report; " +
 		"non-trivial = the text is not empty; distinct by (text, entry)"
 	texts := map[string]string{"empty": "", "space": "   \n", "open-brace": "{", "open-bracket": "[", "raml": PoolDataGarbage, "yaml": "a: 1\nb: [2\n",
 		"xml": "<?xml version=\"1.0\"?><a/>", "rego": "package x\np { true }\n", "single-quote": "{'@id': 'x'}", "trailing-comma": `{"@id": "http://x/a",}`,
 		"nan": "NaN", "unquoted": "{@graph: []}", "latin1": "{\"@id\": \"http://x/\xe9\", \"http://x/p\": \xe9}", "bom-utf8-garbage": "\xef\xbb\xbf\xef\xbb\xbf{",
 		"jsonld-id-number": `{"@id": 5}`, "jsonld-context-number": `{"@context": 5}`, "jsonld-type-number": `{"@id": "http://x/a", "@type": 1}`,
 		"jsonld-value-and-id": `{"@id": "http://x/a", "http://x/p": {"@value": 1, "@id": "http://x/b"}}`,
-		"jsonld-base-number": `{"@context": {"@base": 5}, "@id": "a"}`, "jsonld-language-number": `{"@context": {"@language": 5}, "@id": "http://x/a"}`,
-		"jsonld-type-object": `{"@id": "http://x/a", "@type": {"a": 1}}`,
-		"jsonld-graph-id-object": `{"@graph": [{"@id": {"a": 1}}]}`}
+		"jsonld-base-number":  `{"@context": {"@base": 5}, "@id": "a"}`, "jsonld-language-number": `{"@context": {"@language": 5}, "@id": "http://x/a"}`,
+		"jsonld-type-object":     `{"@id": "http://x/a", "@type": {"a": 1}}`,
+		"jsonld-graph-id-object": `{"@graph": [{"@id": {"a": 1}}]}`,
+		// contexts / documents named by URL that cannot be loaded (nothing listens on port 1): JSON-LD processing fails
+		"jsonld-remote-context-unreachable": `{"@context": "http://127.0.0.1:1/context.jsonld", "@id": "http://x/a", "@type": "ex:Thing"}`,
+		"jsonld-remote-context-in-array":    `{"@context": [{"ex": "http://example.org/ns#"}, "http://127.0.0.1:1/context.jsonld"], "@id": "http://x/a", "@type": "ex:Thing"}`,
+		"jsonld-remote-scoped-context":      `{"@context": {"ex": "http://example.org/ns#"}, "@id": "http://x/a", "@type": "ex:Thing", "ex:child": {"@context": "http://127.0.0.1:1/context.jsonld", "@id": "http://x/b"}}`,
+		"jsonld-remote-context-https":       `{"@context": "https://127.0.0.1:1/context.jsonld", "@graph": [{"@id": "http://x/a"}]}`,
+		"jsonld-document-url-as-string":     `"http://127.0.0.1:1/document.jsonld"`}
 	u16 := utf16.Encode([]rune(PoolDataGood))
 	var b16 bytes.Buffer
 	b16.Write([]byte{0xff, 0xfe})
@@ -481,9 +495,11 @@ func C04(e *core.Env) {
 	}
 	rc := config.DefaultReportConfiguration()
 	entries := map[string]func(d string) (string, error){
-		"Validate":                 func(d string) (string, error) { return pkg.Validate(PoolProfileMin, d, false, nil) },
-		"ValidateWithConfiguration": func(d string) (string, error) { return pkg.ValidateWithConfiguration(PoolProfileLevels, d, false, nil, clockA, rc) },
-		"ValidateCompiled":         func(d string) (string, error) { return pkg.ValidateCompiled(compiled, d, false, nil) },
+		"Validate": func(d string) (string, error) { return pkg.Validate(PoolProfileMin, d, false, nil) },
+		"ValidateWithConfiguration": func(d string) (string, error) {
+			return pkg.ValidateWithConfiguration(PoolProfileLevels, d, false, nil, clockA, rc)
+		},
+		"ValidateCompiled": func(d string) (string, error) { return pkg.ValidateCompiled(compiled, d, false, nil) },
 		"ValidateCompiledWithConfiguration": func(d string) (string, error) {
 			return pkg.ValidateCompiledWithConfiguration(compiled, d, false, nil, clockA, rc)
 		},
